@@ -165,7 +165,7 @@ Proof.
     unfold exception_try in Hrun.
     assert (Hne : (depth st =? max) = false) by (apply Nat.eqb_neq; lia).
     rewrite Hne in Hrun.
-    set (s0 := MS (if tko then obj st else None) (msg st) (depth st :: bufs st) false) in *.
+    set (s0 := MS (if tko then obj st else None) (msg st) (S (depth st) :: bufs st) false) in *.
     assert (Hd0 : depth s0 = S (depth st)) by reflexivity.
     assert (Hm0 : msg s0 = msg st) by reflexivity.
     destruct (run b s0) as [[t1 r1] s1] eqn:E1.
@@ -292,7 +292,7 @@ Proof.
   cbn [mrun]. unfold exception_try.
   assert (Hne : (depth st =? exc_max_depth) = false) by (apply Nat.eqb_neq; lia).
   rewrite Hne.
-  set (s0 := MS (if try_keeps_obj then obj st else None) (msg st) (depth st :: bufs st) false).
+  set (s0 := MS (if try_keeps_obj then obj st else None) (msg st) (S (depth st) :: bufs st) false).
   assert (Hd0 : depth s0 = S (depth st)) by reflexivity.
   assert (Hm0 : msg s0 = msg st) by reflexivity.
   destruct (mrun exc_max_depth true true try_keeps_obj B s0) as [[t1 r1] s1] eqn:E1.
